@@ -1308,10 +1308,10 @@ def run_regressors(ctx, n_runs):
         kind = ["cp", "tucker", "cp-multi"][it % 3]       # cp-multi: matrix-valued responses (the branch of the output modes)
         dims = rng.choice([(3, 2), (2, 3), (2, 2, 2)])
         ns = 8 if kind == "cp-multi" else 12
-        Xs = r.randn(ns, *dims)
+        Xs = np.round(r.randn(ns, *dims) * 256.0) / 256.0     # samples / responses on the dyadic grid 2^-8: same problem class, short exact rationals in the model
         odims = (rng.choice([2, 3]),) if kind == "cp-multi" else ()
         Wtrue = r.randn(*dims, *odims)
-        y = np.tensordot(Xs, Wtrue, axes=len(dims)) + 0.1 * r.randn(ns, *odims)
+        y = np.round((np.tensordot(Xs, Wtrue, axes=len(dims)) + 0.1 * r.randn(ns, *odims)) * 256.0) / 256.0
         reg = rng.choice([0.5, 1.0, 3.0])
         seed = r.randint(1 << 30)
         objs = []
